@@ -3,6 +3,7 @@ use crate::engine::Args;
 
 pub mod c01;
 pub mod c02;
+pub mod c02_h2;
 pub mod c03;
 pub mod c03_h2;
 pub mod c04;
